@@ -39,6 +39,7 @@ RULE = ('case = one constructed model. The first ' + str(len(ENUM)) + ' cases en
         'lines compared as a sequence); for from_value every argument reads back through the attribute of the same name; directive '
         'models are also assembled into File.from_children (with standalone comments) and re-parsed as a file. Non-trivial = >=1 '
         'optional argument supplied; distinct = hash(class, constructor, argument values).')
+RULE += (' Also (rounds 8-9): exponent-form and over-long decimals; comment tokens of the constructed and the re-parsed model compared value by value where the lexer sees the same tokens.')
 ASSUMPTIONS = ['NumberAddExpr/NumberMulExpr are not parse targets: they are re-parsed inside a NumberExpr',
                'comment attribution after re-parse is not compared (adjacent comment lines merge into one token): C14']
 
